@@ -85,10 +85,12 @@ def protection(node: ast.AST, stop: ast.AST) -> str:
 
 
 class Site:
-    __slots__ = ("rel", "qual", "node", "op", "level", "why")
+    __slots__ = ("rel", "qual", "node", "op", "level", "why", "text", "fname")
 
-    def __init__(self, rel, qual, node, op, level, why):
+    def __init__(self, rel, qual, node, op, level, why, text="", fname=""):
         self.rel, self.qual, self.node, self.op, self.level, self.why = rel, qual, node, op, level, why
+        self.text = text or src(node)     # semantic text: event-derived operands named by their provenance, other locals alpha-renamed
+        self.fname = fname
 
 
 class EscapeAnalysis:
@@ -113,6 +115,20 @@ class EscapeAnalysis:
         self._active: set = set()
         self.assumed_total: set = set()
         self.table_funcs: Dict[str, list] = {}   # local callable name -> [(function node, kind of its argument)] (table-driven dispatch)
+        self.callers: Dict[Tuple[str, str], set] = {}   # (rel, function) -> {(rel, calling function)}
+        self.entries: set = set()
+
+    def root(self, rel: str, fname: str, _seen=None) -> Tuple[str, str]:
+        """The function a site is attributed to: a helper with a single caller counts as inlined into that caller
+        (so extracting / inlining a private helper does not rename a construct)."""
+        _seen = _seen or set()
+        if (rel, fname) in self.entries or (rel, fname) in _seen:
+            return rel, fname
+        cs = self.callers.get((rel, fname), set()) - {(rel, fname)}
+        if len(cs) == 1:
+            r2, f2 = next(iter(cs))
+            return self.root(r2, f2, _seen | {(rel, fname)})
+        return rel, fname
 
     # ---- resolution --------------------------------------------------------------------------
     def resolve(self, name: str, func: ast.AST, rel: str) -> Optional[Tuple[str, ast.AST]]:
@@ -141,16 +157,20 @@ class EscapeAnalysis:
     # ---- driver -------------------------------------------------------------------------------
     def run(self, rel: str, qual: str, kinds: Dict[str, str]) -> str:
         f = self.ctx.func(rel, qual)
+        self.entries.add((rel, f.name))
         return self.analyse(rel, f, kinds, "none")
 
-    def analyse(self, rel: str, func: ast.AST, kinds: Dict[str, str], inherited: str) -> str:
-        key = (rel, func.name, tuple(sorted(kinds.items())), inherited)
+    def analyse(self, rel: str, func: ast.AST, kinds: Dict[str, str], inherited: str, origins: Optional[Dict[str, str]] = None) -> str:
+        origins = dict(origins or {})
+        for nm, k in kinds.items():
+            origins.setdefault(nm, "event" if k == EVENT else f"<arg {nm}>")
+        key = (rel, func.name, tuple(sorted(kinds.items())), inherited, tuple(sorted(origins.items())))
         if key in self._memo:
             return self._memo[key]
         if key in self._active:
             return SAFE
         self._active.add(key)
-        w = _FuncWalker(self, rel, func, dict(kinds), inherited)
+        w = _FuncWalker(self, rel, func, dict(kinds), inherited, origins)
         ret = w.run()
         self._active.discard(key)
         self._memo[key] = ret
@@ -164,15 +184,17 @@ class EscapeAnalysis:
                 self.returns[(rel, func.name)].append((node, k))
         return ret
 
-    def add_site(self, rel, qual, node, op, level, why):
+    def add_site(self, rel, qual, node, op, level, why, text="", fname=""):
         k = (rel, id(node), op)
         s = self.sites.get(k)
         if s is None or LEVELS[level] < LEVELS[s.level]:
-            self.sites[k] = Site(rel, qual, node, op, level, why)
+            self.sites[k] = Site(rel, qual, node, op, level, why, text, fname)
 
 
 class _FuncWalker:
-    def __init__(self, an: EscapeAnalysis, rel: str, func: ast.AST, env: Dict[str, str], inherited: str):
+    def __init__(self, an: EscapeAnalysis, rel: str, func: ast.AST, env: Dict[str, str], inherited: str, origins: Optional[Dict[str, str]] = None):
+        self.origin: Dict[str, str] = dict(origins or {})
+        self._locals = None
         self.an = an
         self.rel = rel
         self.func = func
@@ -188,7 +210,89 @@ class _FuncWalker:
         return loc if LEVELS[loc] >= LEVELS[self.inherited] else self.inherited
 
     def site(self, node, op, why):
-        self.an.add_site(self.rel, self.qual, node, op, self.level(node), why)
+        self.an.add_site(self.rel, self.qual, node, op, self.level(node), why, self.label_text(node), self.func.name)
+
+    def _snap(self):
+        return dict(self.env), dict(self.origin)
+
+    def _restore(self, snap):
+        self.env, self.origin = dict(snap[0]), dict(snap[1])
+
+    def _join(self, snap):
+        """Join the current state with ``snap`` (worst kind wins; a provenance label survives while the name may still be event-derived)."""
+        self.env = _merge(snap[0], self.env)
+        org = dict(snap[1])
+        org.update(self.origin)
+        self.origin = {k: v for k, v in org.items() if self.env.get(k) in (HOSTILE, EVENT, TYPED)}
+
+    # ---- provenance labels (stable construct keys) ---------------------------------------------------------
+    def local_names(self) -> set:
+        if self._locals is None:
+            out = set()
+            a = self.func.args
+            for p in a.posonlyargs + a.args + a.kwonlyargs + ([a.vararg] if a.vararg else []) + ([a.kwarg] if a.kwarg else []):
+                out.add(p.arg)
+            for n in ast.walk(self.func):
+                if isinstance(n, ast.Name) and isinstance(n.ctx, (ast.Store, ast.Del)):
+                    out.add(n.id)
+                elif isinstance(n, ast.ExceptHandler) and n.name:
+                    out.add(n.name)
+            self._locals = out
+        return self._locals
+
+    def origin_of(self, e) -> Optional[str]:
+        """Where an event-derived value comes from, as a label independent of local variable names."""
+        if isinstance(e, ast.Name):
+            return self.origin.get(e.id)
+        if isinstance(e, ast.Call):
+            f = e.func
+            if isinstance(f, ast.Name) and f.id == "cast" and len(e.args) == 2:
+                return self.origin_of(e.args[1])
+            if isinstance(f, ast.Attribute) and isinstance(f.value, ast.Name) and self.env.get(f.value.id) == EVENT and f.attr == "get" \
+                    and e.args and isinstance(e.args[0], ast.Constant):
+                return f"<event[{e.args[0].value!r}]>"
+            o = self.origin_of(f)
+            return f"{o}()" if o else None
+        if isinstance(e, ast.Subscript):
+            if isinstance(e.value, ast.Name) and self.env.get(e.value.id) == EVENT and isinstance(e.slice, ast.Constant):
+                return f"<event[{e.slice.value!r}]>"
+            o = self.origin_of(e.value)
+            return f"{o}[...]" if o else None
+        if isinstance(e, ast.Attribute):
+            o = self.origin_of(e.value)
+            return f"{o}.{e.attr}" if o else None
+        if isinstance(e, ast.IfExp):
+            return self.origin_of(e.body) or self.origin_of(e.orelse)
+        if isinstance(e, ast.BoolOp):
+            return next((o for o in (self.origin_of(v) for v in e.values) if o), None)
+        return None
+
+    def label_text(self, node) -> str:
+        alpha: Dict[str, str] = {}
+        loc = self.local_names()
+
+        def cp(n):
+            if isinstance(n, ast.expr):
+                o = self.origin_of(n)
+                if o:
+                    return ast.Name(id=o, ctx=ast.Load())
+                if isinstance(n, ast.Name) and n.id in loc:
+                    return ast.Name(id=alpha.setdefault(n.id, f"_{len(alpha) + 1}"), ctx=ast.Load())
+            if isinstance(n, FUNC_TYPES + (ast.ClassDef,)):
+                return ast.Name(id="<nested def>", ctx=ast.Load())
+            new = type(n)()
+            for fld, val in ast.iter_fields(n):
+                if isinstance(val, list):
+                    setattr(new, fld, [cp(x) if isinstance(x, ast.AST) else x for x in val])
+                elif isinstance(val, ast.AST):
+                    setattr(new, fld, cp(val))
+                else:
+                    setattr(new, fld, val)
+            return new
+        try:
+            return src(cp(node))
+        except Exception:
+            return src(node)
 
     def run(self) -> str:
         for _ in range(2):  # second pass: loop-carried / later-assigned kinds
@@ -199,12 +303,16 @@ class _FuncWalker:
             out = worst(out, k)
         return out or SAFE
 
-    def bind(self, target, kind):
+    def bind(self, target, kind, org: Optional[str] = None):
         if isinstance(target, ast.Name):
             self.env[target.id] = kind
+            if kind in (HOSTILE, EVENT, TYPED):
+                self.origin[target.id] = org or self.origin.get(target.id) or "<value>"
+            else:
+                self.origin.pop(target.id, None)
         elif isinstance(target, (ast.Tuple, ast.List)):
             for e in target.elts:
-                self.bind(e.value if isinstance(e, ast.Starred) else e, HOSTILE if kind in (HOSTILE, EVENT) else kind)
+                self.bind(e.value if isinstance(e, ast.Starred) else e, HOSTILE if kind in (HOSTILE, EVENT) else kind, f"<part of {org}>" if org else None)
         elif isinstance(target, (ast.Attribute, ast.Subscript)):
             self.ev(target.value)
 
@@ -224,11 +332,11 @@ class _FuncWalker:
             for t in st.targets:
                 if isinstance(t, (ast.Tuple, ast.List)) and k in (HOSTILE, EVENT):
                     self.site(st, "unpack", "tuple-unpacking an event-derived value")
-                self.bind(t, k)
+                self.bind(t, k, self.origin_of(st.value))
             return
         if isinstance(st, ast.AnnAssign):
             if st.value is not None:
-                self.bind(st.target, self.ev(st.value))
+                self.bind(st.target, self.ev(st.value), self.origin_of(st.value))
             return
         if isinstance(st, ast.AugAssign):
             k = self.ev(ast.BinOp(left=_load(st.target), op=st.op, right=st.value), at=st)
@@ -251,22 +359,22 @@ class _FuncWalker:
             return
         if isinstance(st, ast.If):
             self.ev(st.test, truth=True)
-            e0 = dict(self.env)
+            s0 = self._snap()
             for nm in _isinstance_names(st.test):
                 if self.env.get(nm) in (HOSTILE, EVENT):
                     self.env[nm] = TYPED
             self.block(st.body)
-            e1 = self.env
-            self.env = dict(e0)
+            s1 = self._snap()
+            self._restore(s0)
             self.block(st.orelse)
-            self.env = _merge(e1, self.env)
+            self._join(s1)
             return
         if isinstance(st, ast.While):
             self.ev(st.test, truth=True)
             for _ in range(2):
-                e0 = dict(self.env)
+                s0 = self._snap()
                 self.block(st.body)
-                self.env = _merge(e0, self.env)
+                self._join(s0)
             self.block(st.orelse)
             return
         if isinstance(st, (ast.For, ast.AsyncFor)):
@@ -274,10 +382,11 @@ class _FuncWalker:
             if k == HOSTILE:
                 self.site(st.iter, "iterate", "iterating an event-derived value")
             for _ in range(2):
-                e0 = dict(self.env)
-                self.bind(st.target, self.elem_kind(k))
+                s0 = self._snap()
+                o = self.origin_of(st.iter)
+                self.bind(st.target, self.elem_kind(k), f"<item of {o}>" if o else "<item>")
                 self.block(st.body)
-                self.env = _merge(e0, self.env)
+                self._join(s0)
             self.block(st.orelse)
             return
         if isinstance(st, (ast.With, ast.AsyncWith)):
@@ -288,17 +397,20 @@ class _FuncWalker:
             self.block(st.body)
             return
         if isinstance(st, ast.Try):
-            e0 = dict(self.env)
+            s0 = self._snap()
             self.block(st.body)
             self.block(st.orelse)
-            acc = self.env
+            acc = self._snap()
             for h in st.handlers:
-                self.env = _merge(e0, acc)
+                self._restore(s0)
+                self._join(acc)
                 if h.name:
                     self.env[h.name] = HOSTILE  # the exception object comes out of arbitrary code
+                    self.origin[h.name] = "<caught exception>"
                 self.block(h.body)
-                acc = _merge(acc, self.env)
-            self.env = acc
+                self._join(acc)
+                acc = self._snap()
+            self._restore(acc)
             self.block(st.finalbody)
             return
         if isinstance(st, ast.Assert):
@@ -347,7 +459,8 @@ class _FuncWalker:
                 k = self.ev(g.iter)
                 if k == HOSTILE:
                     self.site(g.iter, "iterate", "iterating an event-derived value")
-                self.bind(g.target, self.elem_kind(k))
+                o = self.origin_of(g.iter)
+                self.bind(g.target, self.elem_kind(k), f"<item of {o}>" if o else "<item>")
                 for c in g.ifs:
                     self.ev(c, truth=True)
             if isinstance(e, ast.DictComp):
@@ -555,8 +668,13 @@ class _FuncWalker:
             if k_ is not None:
                 kinds[k_] = v
         kinds = {k: v for k, v in kinds.items() if v != SAFE}
+        origins: Dict[str, str] = {}
+        for name, a_ in list(zip(pos, e.args)) + [(k.arg, k.value) for k in e.keywords if k.arg]:
+            if name in kinds:
+                origins[name] = ("event" if kinds[name] == EVENT else None) or self.origin_of(a_) or "<value>"
+        self.an.callers.setdefault((rel, fn.name), set()).add((self.rel, self.func.name))
         lvl = self.level(e)
-        return self.an.analyse(rel, fn, kinds, lvl)
+        return self.an.analyse(rel, fn, kinds, lvl, origins)
 
 
 def _isinstance_names(test) -> List[str]:
